@@ -4,4 +4,7 @@ TARGETS = [
     ("fakesnow/cursor.py", "FakeSnowflakeCursor.fetchmany", "fakesnow.cursor.FakeSnowflakeCursor.fetchmany"),
     ("fakesnow/cursor.py", "FakeSnowflakeCursor.fetchone", "fakesnow.cursor.FakeSnowflakeCursor.fetchone"),
     ("fakesnow/cursor.py", "FakeSnowflakeCursor.fetchall", "fakesnow.cursor.FakeSnowflakeCursor.fetchall"),
+    ("fakesnow/cli.py", "split", "fakesnow.cli.split"),
 ]
+
+T = {cn.split(".")[-1] if cn.split(".")[-1] not in ("split",) else cn.split(".")[-1]: (rel, q, cn) for rel, q, cn in TARGETS}
